@@ -5,8 +5,10 @@
     Proved here at full strength: the retain flag, the retained tests of all four prepare functions, eps = 0,
     and the linear-in-eps bounds for the single-particle Green's function (2 eps dim / |Im z|), for ensemble
     averages (eps dim max|A_nn|) and for the dynamical susceptibility on the imaginary axis (beta eps dim).
-    NOT proved in Coq: a bound for the two-particle Green's function (the property asks for "a bound proportional
-    to eps"); see the comment at the end of this file for the statement that the check uses numerically. *)
+    Second half of this file (proofs in PV.TruncBoundsProofs, definitions in PV.TruncBounds): the bound for the
+    two-particle Green's function at fermionic Matsubara triples, 6 F^2 beta^3 (4/pi^3 + 2/pi^2) eps with F the squared
+    Frobenius norm of the operators (= dim^2 beta^3 eps/2 for F = dim/2), and the susceptibility bound once more at the
+    level of the full-space specification EDSpec.susc (every imaginary z, resonant term included). *)
 Require Import Reals List Arith Bool.
 From Coquelicot Require Import Complex.
 From PV Require Import Outcome Thermal ThermalSpec ThermalProofs ThermalExamples.
@@ -140,16 +142,206 @@ Theorem susc_truncation_bound : forall (parts : list suscpart) (ret : nat -> boo
 Proof. exact ThermalProofs.susc_truncation_bound. Qed.
 Print Assumptions susc_truncation_bound.
 
-(** Not machine-checked (used numerically by checks/C19.py, with this derivation):
+(** * Two-particle Green's function and susceptibility at the level of the full-space specification
 
-    tpgf_truncation_bound (full statement, unproved):
-      for fermionic Matsubara frequencies z_k = i pi (2 n_k + 1)/beta,
-      |chi4_trunc(z1,z2,z3) - chi4(z1,z2,z3)| <= 6 * (dim^2/4) * (4/pi^3 + 2/pi^2) * beta^3 * eps  <  0.5 dim^2 beta^3 eps.
-    Derivation: a dropped part has all four blocks discarded, so the four weights of each of its terms are in [0, eps].
-    In the kernel phi of doc/gamma4.tex every denominator factor z + (energy difference) has modulus >= pi/beta for a
-    fermionic combination of frequencies; a bosonic factor appears only in (w_k - w_i)/(z1+z2+E_i-E_k) (and its beta w_i
-    limit), which is bounded by beta max(w) exactly as in susc_truncation_bound.  Hence |phi| <= eps beta^3 (4/pi^3 + 2/pi^2).
-    The sum over the four state indices of |<i|O1|j><j|O2|k><k|O3|l><l|O4|i>| is at most
-    ||O1||_F ||O2||_F ||O3||_F ||O4||_F = (dim/2)^2 (each c, c^+ has squared Frobenius norm Tr c^+ c = dim/2);
-    there are 6 operator orderings.  What is missing for a proof: a model of TwoParticleGFPart's term lists (C02) with
-    the Frobenius-norm estimate for four-fold products. *)
+    The derivation that used to stand here as a comment is now the theorems below.  Setting (PV.TruncBounds):
+    [chi_mask] / [susc_mask] are EDSpec.chi / EDSpec.susc (number type: Coquelicot's C, GFIdentities.CNum) with a Boolean
+    mask on the Lehmann chains; the mask "true" gives EDSpec.chi / EDSpec.susc themselves ([chi_mask_is_spec]).
+    Truncation does not change a weight; it omits exactly the parts all of whose blocks are discarded
+    (tpgf_parts_skipped_only_if_all_discarded, susc_parts_skipped_only_if_all_discarded above), i.e. the chains
+    (i,j,k,l) whose four states are all dropped: [trunc_keep4 drop pres] on top of the chains [pres] present in both
+    runs ([truncation_mask_is_part_test] ties the mask to the part-level test).
+    [sq n O]: O is a list of n rows of length n; [frob2 O]: sum of |entry|^2. *)
+From PV Require Import EDSpec GFIdentities TermIntegrals TruncBounds TruncBoundsProofs.
+
+Theorem chi_mask_is_spec : forall beta tol E w C1 C2 CX3 CX4 z1 z2 z3,
+  chi_mask C CNum (fun _ _ _ _ _ => true) beta tol E w C1 C2 CX3 CX4 z1 z2 z3 =
+  EDSpec.chi C CNum beta tol E w C1 C2 CX3 CX4 z1 z2 z3.
+Proof. exact (TruncBoundsProofs.chi_mask_all C CNum). Qed.
+Print Assumptions chi_mask_is_spec.
+
+Theorem susc_mask_is_spec : forall beta tol E w A B z zf,
+  susc_mask C CNum (fun _ _ => true) beta tol E w A B z zf = EDSpec.susc C CNum beta tol E w A B z zf.
+Proof. exact (TruncBoundsProofs.susc_mask_all C CNum). Qed.
+Print Assumptions susc_mask_is_spec.
+
+(** a chain is omitted by truncation iff the part (stripe) of its four blocks fails the test of TwoParticleGF::prepare *)
+Theorem truncation_mask_is_part_test : forall (ret : nat -> bool) (blk : nat -> nat) (pn i j k l : nat),
+  negb (all_dropped4 (state_dropped ret blk) i j k l) = tpgf_part_kept ret (pn, (blk i, blk j, blk k, blk l)).
+Proof. exact TruncBoundsProofs.all_dropped4_is_part_skipped. Qed.
+Print Assumptions truncation_mask_is_part_test.
+
+(** phi_term_bound: one term of the kernel phi of doc/gamma4.tex (EDSpec.phi; the two triple fractions, the two
+    "bosonic" quotients and their resonant limits beta w).  Frequencies purely imaginary with |Im z_k| >= m and
+    |Im (z1+z2+z3)| >= m; weights in [0, W]; w_k/w_i and w_l/w_j in the Gibbs ratio; any resonance tolerance. *)
+Theorem phi_term_bound : forall (beta m W : R) (tol z1 z2 z3 : C) (Ei Ej Ek El wi wj wk wl : R),
+  0 <= beta -> 0 < m ->
+  fst z1 = 0 -> fst z2 = 0 -> fst z3 = 0 ->
+  m <= Rabs (snd z1) -> m <= Rabs (snd z2) -> m <= Rabs (snd z3) -> m <= Rabs (snd z1 + snd z2 + snd z3) ->
+  0 <= wi <= W -> 0 <= wj <= W -> 0 <= wk <= W -> 0 <= wl <= W ->
+  wk = wi * exp (- beta * (Ek - Ei)) -> wl = wj * exp (- beta * (El - Ej)) ->
+  Cmod (EDSpec.phi C CNum (RtoC beta) tol (RtoC Ei) (RtoC Ej) (RtoC Ek) (RtoC El)
+          (RtoC wi) (RtoC wj) (RtoC wk) (RtoC wl) z1 z2 z3)
+    <= W * (4 / (m * m * m) + 2 * beta / (m * m)).
+Proof. exact TruncBoundsProofs.phi_term_bound. Qed.
+Print Assumptions phi_term_bound.
+
+(** at fermionic Matsubara frequencies i pi (2 n_k + 1)/beta: m = pi/beta *)
+Theorem phi_term_bound_matsubara : forall (beta W : R) (tol : C) (n1 n2 n3 : Z) (Ei Ej Ek El wi wj wk wl : R),
+  0 < beta ->
+  0 <= wi <= W -> 0 <= wj <= W -> 0 <= wk <= W -> 0 <= wl <= W ->
+  wk = wi * exp (- beta * (Ek - Ei)) -> wl = wj * exp (- beta * (El - Ej)) ->
+  Cmod (EDSpec.phi C CNum (RtoC beta) tol (RtoC Ei) (RtoC Ej) (RtoC Ek) (RtoC El)
+          (RtoC wi) (RtoC wj) (RtoC wk) (RtoC wl)
+          (0, fermi_freq beta n1) (0, fermi_freq beta n2) (0, fermi_freq beta n3))
+    <= W * (beta * beta * beta * (4 / (PI * PI * PI) + 2 / (PI * PI))).
+Proof. exact TruncBoundsProofs.phi_term_bound_matsubara. Qed.
+Print Assumptions phi_term_bound_matsubara.
+
+(** counting: the sum over ALL n^4 Lehmann chains of |A_ij| |B_jk| |C_kl| |D_li| is at most
+    (|A|_F^2 |C|_F^2 + |B|_F^2 |D|_F^2)/2 *)
+Theorem chain_count : forall (n : nat) (a b c d : nat -> nat -> R),
+  S4 n (fun i j k l => a i j * b j k * c k l * d l i)
+  <= (S2 n (fun i j => a i j * a i j) * S2 n (fun i j => c i j * c i j) +
+      S2 n (fun i j => b i j * b i j) * S2 n (fun i j => d i j * d i j)) / 2.
+Proof. exact TruncBoundsProofs.chain_count. Qed.
+Print Assumptions chain_count.
+
+(** tpgf_truncation_bound.  n eigenstates with energies Er and weights wr; C1 C2 CX3 CX4: n x n matrices of
+    c_1, c_2, c^+_3, c^+_4 in the eigenbasis; [drop s]: state s lies in a discarded block.
+    Named hypotheses: weights_nonneg, dropped_weights_small, weights_gibbs (all three follow from the density-matrix
+    model: tpgf_truncation_bound_dm below), frobenius (squared Frobenius norms <= F; F = dim/2 for c_a, c^+_a in an
+    orthonormal basis of Fock space since Tr c^+ c = dim/2 -- checked numerically on the dumped matrices by the check).
+    At every triple of fermionic Matsubara frequencies and for every resonance tolerance:
+      |chi4_trunc - chi4| <= 6 F^2 beta^3 (4/pi^3 + 2/pi^2) eps     (6 operator orderings; 4/pi^3 + 2/pi^2 = 0.3316...) *)
+Theorem tpgf_truncation_bound : forall (n : nat) (beta eps F : R) (tol : C) (Er wr : list R)
+    (C1 C2 CX3 CX4 : list (list C)) (drop : nat -> bool) (pres : list nat -> nat -> nat -> nat -> nat -> bool) (n1 n2 n3 : Z),
+  0 < beta -> 0 <= eps ->
+  sq n C1 -> sq n C2 -> sq n CX3 -> sq n CX4 ->
+  (forall s, (s < n)%nat -> 0 <= nth s wr 0) ->
+  (forall s, (s < n)%nat -> drop s = true -> nth s wr 0 <= eps) ->
+  (forall s t, (s < n)%nat -> (t < n)%nat -> nth t wr 0 = nth s wr 0 * exp (- beta * (nth t Er 0 - nth s Er 0))) ->
+  frob2 C1 <= F -> frob2 C2 <= F -> frob2 CX3 <= F -> frob2 CX4 <= F ->
+  Cmod (Cminus
+    (chi_mask C CNum (trunc_keep4 drop pres) (RtoC beta) tol (map RtoC Er) (map RtoC wr) C1 C2 CX3 CX4
+       (0, fermi_freq beta n1) (0, fermi_freq beta n2) (0, fermi_freq beta n3))
+    (chi_mask C CNum pres (RtoC beta) tol (map RtoC Er) (map RtoC wr) C1 C2 CX3 CX4
+       (0, fermi_freq beta n1) (0, fermi_freq beta n2) (0, fermi_freq beta n3)))
+  <= 6 * F * F * (beta * beta * beta * (4 / (PI * PI * PI) + 2 / (PI * PI))) * eps.
+Proof. exact TruncBoundsProofs.tpgf_truncation_bound. Qed.
+Print Assumptions tpgf_truncation_bound.
+
+(** against the untruncated specification EDSpec.chi itself *)
+Theorem tpgf_truncation_bound_spec : forall (n : nat) (beta eps F : R) (tol : C) (Er wr : list R)
+    (C1 C2 CX3 CX4 : list (list C)) (drop : nat -> bool) (n1 n2 n3 : Z),
+  0 < beta -> 0 <= eps ->
+  sq n C1 -> sq n C2 -> sq n CX3 -> sq n CX4 ->
+  (forall s, (s < n)%nat -> 0 <= nth s wr 0) ->
+  (forall s, (s < n)%nat -> drop s = true -> nth s wr 0 <= eps) ->
+  (forall s t, (s < n)%nat -> (t < n)%nat -> nth t wr 0 = nth s wr 0 * exp (- beta * (nth t Er 0 - nth s Er 0))) ->
+  frob2 C1 <= F -> frob2 C2 <= F -> frob2 CX3 <= F -> frob2 CX4 <= F ->
+  Cmod (Cminus
+    (chi_mask C CNum (trunc_keep4 drop (fun _ _ _ _ _ => true)) (RtoC beta) tol (map RtoC Er) (map RtoC wr) C1 C2 CX3 CX4
+       (0, fermi_freq beta n1) (0, fermi_freq beta n2) (0, fermi_freq beta n3))
+    (EDSpec.chi C CNum (RtoC beta) tol (map RtoC Er) (map RtoC wr) C1 C2 CX3 CX4
+       (0, fermi_freq beta n1) (0, fermi_freq beta n2) (0, fermi_freq beta n3)))
+  <= 6 * F * F * (beta * beta * beta * (4 / (PI * PI * PI) + 2 / (PI * PI))) * eps.
+Proof. exact TruncBoundsProofs.tpgf_truncation_bound_spec. Qed.
+Print Assumptions tpgf_truncation_bound_spec.
+
+(** with F = dim/2: the bound applied by checks/C19.py, dim^2 beta^3 eps/2  (needs 4/pi^3 + 2/pi^2 <= 1/3, from pi > 3.14) *)
+Theorem tpgf_truncation_bound_half_dim : forall (n : nat) (beta eps : R) (tol : C) (Er wr : list R)
+    (C1 C2 CX3 CX4 : list (list C)) (drop : nat -> bool) (pres : list nat -> nat -> nat -> nat -> nat -> bool) (n1 n2 n3 : Z),
+  0 < beta -> 0 <= eps ->
+  sq n C1 -> sq n C2 -> sq n CX3 -> sq n CX4 ->
+  (forall s, (s < n)%nat -> 0 <= nth s wr 0) ->
+  (forall s, (s < n)%nat -> drop s = true -> nth s wr 0 <= eps) ->
+  (forall s t, (s < n)%nat -> (t < n)%nat -> nth t wr 0 = nth s wr 0 * exp (- beta * (nth t Er 0 - nth s Er 0))) ->
+  frob2 C1 <= INR n / 2 -> frob2 C2 <= INR n / 2 -> frob2 CX3 <= INR n / 2 -> frob2 CX4 <= INR n / 2 ->
+  Cmod (Cminus
+    (chi_mask C CNum (trunc_keep4 drop pres) (RtoC beta) tol (map RtoC Er) (map RtoC wr) C1 C2 CX3 CX4
+       (0, fermi_freq beta n1) (0, fermi_freq beta n2) (0, fermi_freq beta n3))
+    (chi_mask C CNum pres (RtoC beta) tol (map RtoC Er) (map RtoC wr) C1 C2 CX3 CX4
+       (0, fermi_freq beta n1) (0, fermi_freq beta n2) (0, fermi_freq beta n3)))
+  <= / 2 * (INR n * INR n) * (beta * beta * beta) * eps.
+Proof. exact TruncBoundsProofs.tpgf_truncation_bound_half_dim. Qed.
+Print Assumptions tpgf_truncation_bound_half_dim.
+
+(** the three weight hypotheses discharged from the density-matrix model: D = DensityMatrix::compute(beta, H), state s is
+    eigenstate [pos s] of block [blk s], [drop] is DensityMatrix::isRetained after truncateBlocks(eps) *)
+Theorem tpgf_truncation_bound_dm : forall (beta eps F : R) (H : list Rhpart) (D : list Rdmpart) (blk pos : nat -> nat) (n : nat)
+    (tol : C) (C1 C2 CX3 CX4 : list (list C)) (pres : list nat -> nat -> nat -> nat -> nat -> bool) (n1 n2 n3 : Z),
+  Rdm_compute beta H = Done D ->
+  (forall s, (s < n)%nat -> valid_state H (blk s) (pos s)) ->
+  0 < beta -> 0 <= eps ->
+  sq n C1 -> sq n C2 -> sq n CX3 -> sq n CX4 ->
+  frob2 C1 <= F -> frob2 C2 <= F -> frob2 CX3 <= F -> frob2 CX4 <= F ->
+  let Er := map (fun s => energy_at H (blk s) (pos s)) (seq 0 n) in
+  let wr := map (fun s => weight_at D (blk s) (pos s)) (seq 0 n) in
+  let drop := state_dropped (Ris_retained (Rdm_truncate eps D)) blk in
+  Cmod (Cminus
+    (chi_mask C CNum (trunc_keep4 drop pres) (RtoC beta) tol (map RtoC Er) (map RtoC wr) C1 C2 CX3 CX4
+       (0, fermi_freq beta n1) (0, fermi_freq beta n2) (0, fermi_freq beta n3))
+    (chi_mask C CNum pres (RtoC beta) tol (map RtoC Er) (map RtoC wr) C1 C2 CX3 CX4
+       (0, fermi_freq beta n1) (0, fermi_freq beta n2) (0, fermi_freq beta n3)))
+  <= 6 * F * F * (beta * beta * beta * (4 / (PI * PI * PI) + 2 / (PI * PI))) * eps.
+Proof. exact TruncBoundsProofs.tpgf_truncation_bound_dm. Qed.
+Print Assumptions tpgf_truncation_bound_dm.
+
+(** Susceptibility at the level of EDSpec.susc: every z on the imaginary axis (all bosonic Matsubara frequencies; at
+    W_0 = 0 the degenerate pairs contribute the resonant term beta A_nm B_mn w_n, [zf] = the specification's zero-frequency
+    flag, arbitrary here), every resonance tolerance:  |chi_trunc(z) - chi(z)| <= beta eps (|A|_F^2 + |B|_F^2)/2.
+    (The part-structured form with the constant beta eps dim is susc_truncation_bound above.) *)
+Theorem susc_spec_truncation_bound : forall (n : nat) (beta eps : R) (tol z : C) (zf : bool) (Er wr : list R)
+    (A B : list (list C)) (drop : nat -> bool) (pres : nat -> nat -> bool),
+  0 <= beta -> 0 <= eps -> fst z = 0 ->
+  sq n A -> sq n B ->
+  (forall s, (s < n)%nat -> 0 <= nth s wr 0) ->
+  (forall s, (s < n)%nat -> drop s = true -> nth s wr 0 <= eps) ->
+  (forall s t, (s < n)%nat -> (t < n)%nat -> nth t wr 0 = nth s wr 0 * exp (- beta * (nth t Er 0 - nth s Er 0))) ->
+  Cmod (Cminus
+    (susc_mask C CNum (trunc_keep2 drop pres) (RtoC beta) tol (map RtoC Er) (map RtoC wr) A B z zf)
+    (susc_mask C CNum pres (RtoC beta) tol (map RtoC Er) (map RtoC wr) A B z zf))
+  <= beta * eps * ((frob2 A + frob2 B) / 2).
+Proof. exact TruncBoundsProofs.susc_spec_truncation_bound. Qed.
+Print Assumptions susc_spec_truncation_bound.
+
+(** at the bosonic Matsubara frequencies 2 pi i k/beta with the zero-frequency flag as the library sets it (k = 0),
+    against EDSpec.susc itself, squared Frobenius norms <= F:  beta eps F  (F = dim for operators of norm <= 1:
+    the bound beta eps dim of the check) *)
+Theorem susc_spec_truncation_bound_matsubara : forall (n : nat) (beta eps F : R) (tol : C) (k : Z) (Er wr : list R)
+    (A B : list (list C)) (drop : nat -> bool),
+  0 <= beta -> 0 <= eps ->
+  sq n A -> sq n B ->
+  (forall s, (s < n)%nat -> 0 <= nth s wr 0) ->
+  (forall s, (s < n)%nat -> drop s = true -> nth s wr 0 <= eps) ->
+  (forall s t, (s < n)%nat -> (t < n)%nat -> nth t wr 0 = nth s wr 0 * exp (- beta * (nth t Er 0 - nth s Er 0))) ->
+  frob2 A <= F -> frob2 B <= F ->
+  Cmod (Cminus
+    (susc_mask C CNum (trunc_keep2 drop (fun _ _ => true)) (RtoC beta) tol (map RtoC Er) (map RtoC wr) A B
+       (0, bose_freq beta k) (Z.eqb k 0))
+    (EDSpec.susc C CNum (RtoC beta) tol (map RtoC Er) (map RtoC wr) A B (0, bose_freq beta k) (Z.eqb k 0)))
+  <= beta * eps * F.
+Proof. exact TruncBoundsProofs.susc_spec_truncation_bound_matsubara. Qed.
+Print Assumptions susc_spec_truncation_bound_matsubara.
+
+Theorem susc_spec_truncation_bound_dm : forall (beta eps : R) (H : list Rhpart) (D : list Rdmpart) (blk pos : nat -> nat) (n : nat)
+    (tol z : C) (zf : bool) (A B : list (list C)) (pres : nat -> nat -> bool),
+  Rdm_compute beta H = Done D ->
+  (forall s, (s < n)%nat -> valid_state H (blk s) (pos s)) ->
+  0 <= beta -> 0 <= eps -> fst z = 0 ->
+  sq n A -> sq n B ->
+  let Er := map (fun s => energy_at H (blk s) (pos s)) (seq 0 n) in
+  let wr := map (fun s => weight_at D (blk s) (pos s)) (seq 0 n) in
+  let drop := state_dropped (Ris_retained (Rdm_truncate eps D)) blk in
+  Cmod (Cminus
+    (susc_mask C CNum (trunc_keep2 drop pres) (RtoC beta) tol (map RtoC Er) (map RtoC wr) A B z zf)
+    (susc_mask C CNum pres (RtoC beta) tol (map RtoC Er) (map RtoC wr) A B z zf))
+  <= beta * eps * ((frob2 A + frob2 B) / 2).
+Proof. exact TruncBoundsProofs.susc_spec_truncation_bound_dm. Qed.
+Print Assumptions susc_spec_truncation_bound_dm.
+
+(** Hypotheses satisfiable (PV.TruncBoundsProofs, section 7): the Hubbard atom in a field (U = 1, mu = 1, h = -1) at
+    beta = 2, eps = 1/10 -- the blocks of |0> and |up> are discarded, the chain 0 -> 1 -> 0 -> 1 of chi_{up up up up} is
+    really omitted (hub_chain_dropped); hub_tpgf_bound instantiates tpgf_truncation_bound_half_dim (bound 6.4),
+    hub_susc_bound instantiates susc_spec_truncation_bound for <n_up; n_up> (bound 0.4). *)
